@@ -180,9 +180,15 @@ def paired_length_rule(res, fx, rule='PAIRED-LENGTH'):
     res.rule(rule, 'in the Matches() methods of regex/QueryFilter.cpp an expression `buf[len - …]` (or buf + len - …) indexes a byte pointer local with the length local that was obtained together with it '
                    '(both out-arguments of one call, or GetBuffer()/GetNumBytes() of one object), never with the length of the other operand', floor=2)
     n = 0
-    for f in sorted((f for f in fx.funcs.values() if f.full and f.q.endswith('::Matches') and f.file.endswith('regex/QueryFilter.cpp')), key=lambda f: f.line):
+    from msa import ip as IP
+    mfs = sorted((f for f in fx.funcs.values() if f.full and f.q.endswith('::Matches') and f.file.endswith('regex/QueryFilter.cpp')), key=lambda f: f.line)
+    # Matches() and the private members its second half may have been moved into (msa/ip.py): a parameter of such a helper has the origin of the variable passed at its call site
+    work = [(f, {}) for f in mfs]
+    seen_f = set(id(f) for f in mfs)
+    while work:
+        (f, seed) = work.pop(0)
         # origin of each local: ('call', node id of the call it is an out-argument of) / ('obj', render key of the object whose accessor initialised it)
-        origin = {}
+        origin = dict((k_, set(v_)) for k_, v_ in seed.items())
         for c in f.walk():
             if c.is_call():
                 for a in c.args():
@@ -208,6 +214,17 @@ def paired_length_rule(res, fx, rule='PAIRED-LENGTH'):
                     if src['k'] == 'DeclRefExpr' and src.get('d') in origin and not origin[src['d']] <= origin.get(v['d'], set()):
                         origin.setdefault(v['d'], set()).update(origin[src['d']])
                         changed = True
+        for c in f.walk():
+            if c.is_call():
+                h_ = IP.helper_of(fx, c, r'QueryFilter::')
+                if h_ is not None and id(h_) not in seen_f and h_.file.endswith('regex/QueryFilter.cpp') and len(IP.call_sites_of(fx, h_, r'QueryFilter::')) == 1:
+                    seen_f.add(id(h_))
+                    sd = {}
+                    for k_, p_ in enumerate(h_.params):
+                        a_ = A.strip_casts(c.args()[k_]) if k_ < len(c.args()) else None
+                        if a_ is not None and a_['k'] == 'DeclRefExpr' and a_.get('d') in origin and p_.get('d') is not None:
+                            sd[p_['d']] = set(('caller',) + o_ for o_ in origin[a_['d']])
+                    work.append((h_, sd))
         for sub in f.walk():
             if sub['k'] != 'ArraySubscriptExpr':
                 continue
